@@ -406,6 +406,70 @@ def rule_styles(ck: Check, repo: Repo, folder: Folder) -> None:
                     repo.loc(vf))
 
 
+def rule_writer_refusal(ck: Check, repo: Repo, rid: str = "R8") -> None:
+    """The multi-line writer must refuse every text that contains the style's own terminator: the reader (and every
+    parser of the language) ends the comment there, so whatever follows would not be read back.  Decided as a table of
+    _create_comment_multi over {can_multi, terminator_in_text}; the set of overriding definitions of the writer
+    methods is frozen (a subclass override with a weaker test is a new writer)."""
+    r = ck.rule(rid, "the multi-line comment writer refuses any text containing the style's terminator; no style overrides the writer guards")
+    q = "reuse.comment.CommentStyle._create_comment_multi"
+    fn = repo.func(q)
+    ck.analysed_fn(q)
+
+    class H(Hooks):
+        def atom(self, text, node, it):
+            if text == "cls.can_handle_multi()":
+                return "can_multi"
+            if re.fullmatch(r"cls\.MULTI_LINE\.end in (text|line)", text):
+                return "terminator_in_text"
+            return None
+
+    def ref(v):
+        if not v("can_multi"):
+            return "raise"
+        if v("terminator_in_text"):
+            return "raise"
+        return "return"
+
+    leaves = tabulate(fn, H(), ref, params=["cls", "text"])
+    r.floor(3, "paths through _create_comment_multi", got=len(leaves))
+    seen = set()
+    for d, leaf, exp in leaves:
+        short = {k.split("::")[-1]: v for k, v in d.items() if k.split("::")[-1] in ("can_multi", "terminator_in_text") or k.split("::")[-1].startswith("?")}
+        got = leaf.outcome[0]
+        key = (tuple(sorted(short.items())), got)
+        if key in seen:
+            continue
+        seen.add(key)
+        r.instance("writer:" + show_valuation(short), {"valuation": show_valuation(short), "outcome": leaf.outcome[:2]})
+        if got != exp or (got == "raise" and leaf.outcome[1] != "CommentCreateError"):
+            free = [a[1:] for a in short if a.startswith("?") and "MULTI_LINE.middle" not in a and a != "?line"]
+            r.violation(q, f"[{show_valuation(short)}] the writer {'returns a comment' if got == 'return' else got}",
+                        f"the specification says {exp}"
+                        + (f"; the decision depends on {free[0]!r} instead of 'the terminator occurs in the text' - a value containing"
+                           f" (or ending in) the terminator is written and reported as success, but read back cut short" if free else ""),
+                        f"{repo.module('reuse.comment').rel}:{leaf.trace[-1] if leaf.trace else fn.lineno}", {"valuation": {k: v for k, v in d.items()}})
+    # frozen set of definitions of the writer-side methods
+    writer_methods = ("create_comment", "_create_comment_single", "_create_comment_multi", "can_handle_single", "can_handle_multi")
+    defs = sorted(qn for qn in repo.functions if qn.startswith("reuse.comment.") and qn.rsplit(".", 1)[-1] in writer_methods)
+    want = sorted([f"reuse.comment.CommentStyle.{m}" for m in writer_methods] + ["reuse.comment.EmptyCommentStyle.create_comment"])
+    r.instance("writer-definitions", {"definitions": defs})
+    for extra in sorted(set(defs) - set(want)):
+        r.violation(extra, "a comment style overrides a writer method",
+                    "the guards of CommentStyle (terminator refusal, capability tests) no longer apply to that style; its header"
+                    " values are not covered by the writer/reader agreement", repo.loc(repo.functions[extra]))
+    for missing in sorted(set(want) - set(defs)):
+        raise AnalysisError(f"anchor vanished: {missing}")
+    # helper predicates called from the writer guard must not be overridden either
+    called = {c.func.attr for c in ast.walk(fn) if isinstance(c, ast.Call) and isinstance(c.func, ast.Attribute)
+              and isinstance(c.func.value, ast.Name) and c.func.value.id == "cls"}
+    for name in sorted(called - set(writer_methods)):
+        ds = sorted(qn for qn in repo.functions if qn.startswith("reuse.comment.") and qn.endswith("." + name))
+        if len(ds) > 1:
+            r.violation(ds[-1], f"helper {name} of the writer guard is overridden per style", f"{ds}", repo.loc(repo.functions[ds[-1]]))
+
+
+
 def run(ck: Check, repo: Repo) -> None:
     ck.explanation = (
         "R1 the post-render check of _create_new_header as a 4-cell table (raise iff copyright OR licences read back"
@@ -428,6 +492,7 @@ def run(ck: Check, repo: Repo) -> None:
     from . import c09
     c09.rule_no_mutation(ck, repo, "R6")
     rule_tables_roundtrip(ck, repo, folder, "R7")
+    rule_writer_refusal(ck, repo)
 
 
 # ------------------------------------------------------------------ R7: writer tables vs reader tables over the SPDX list
